@@ -117,15 +117,25 @@ def h_nonpromotable(cname, n, kind):
     return h
 
 
-def h_hash(n):
-    """equal content => equal hash input, across the hashable classes and positions; result is a function of the bits"""
+def h_hash(n, mode_switch=False):
+    """equal content => equal hash input, across the hashable classes and positions; result is a function of the bits.
+    mode_switch: the second object is hashed with options.lsb0 set (hash is a whole-value notion: same in both modes, and a set built in one mode
+    must find its members in the other)"""
     def h(K):
         import bitstring
         x = K.bits('x', n)
         p = K.int('p', 0, n)
         a = mk(K, bitstring.Bits, x)
         b = mk(K, bitstring.ConstBitStream, x, p)
-        ha, hb = call(a.__hash__), call(b.__hash__)
+        ha = call(a.__hash__)
+        bitstring.options.lsb0 = mode_switch
+        try:
+            hb = call(b.__hash__)
+            ha2 = call(a.__hash__)
+        finally:
+            bitstring.options.lsb0 = False
+        if mode_switch and not K.check(ha.ok and ha2.ok and _hash_eq(ha.value, ha2.value), 'the hash of one and the same object changes when options.lsb0 is switched'):
+            return False
         if not (ha.ok and hb.ok):
             return K.fail('__hash__ raised', exc=ha.excname or hb.excname)
         if not K.check(_hash_eq(ha.value, hb.value), 'equal Bits and ConstBitStream hash differently'):
@@ -139,6 +149,37 @@ def h_hash(n):
         if same(x, y):
             return K.check(_hash_eq(ha.value, hc.value), 'equal objects with different hashes')
         return K.check(_unchanged(K, a, x, None) and b._pos == p, 'hash changed its operand')
+    return h
+
+
+def h_hash_pickle(cname, n):
+    """the hash of an object that went through pickle / deepcopy is computed by the interpreter that asks for it: another process has another
+    string-hash seed (simulated by salting the hash probe between the dump and the load), so nothing derived from hash() may travel with the object"""
+    def h(K):
+        import bitstring
+        import bitstring.bits as bb
+        import pickle
+        import copy
+        cls = classes()[cname]
+        bits = ''.join('1' if (i * 7 + i // 3) % 5 in (0, 3) else '0' for i in range(n))
+        a = cls(bin=bits) if n else cls()
+        how = K.choice('how', ['pickle', 'deepcopy', 'pickle-unhashed'])
+        bb.hash = lambda x: ('seed-A', x)
+        try:
+            if how != 'pickle-unhashed':
+                call(a.__hash__)
+            r = call(lambda: pickle.loads(pickle.dumps(a)) if how != 'deepcopy' else copy.deepcopy(a))
+            if not r.ok:
+                return K.fail('pickle / deepcopy of a bitstring raised', how=how, exc=r.excname)
+            b = r.value
+            bb.hash = lambda x: ('seed-B', x)          # "another interpreter"
+            fresh = cls(bin=bits) if n else cls()
+            hb, hf = call(b.__hash__), call(fresh.__hash__)
+            if not (hb.ok and hf.ok):
+                return K.fail('__hash__ raised', exc=hb.excname or hf.excname)
+            return K.check((b == fresh) and hb.value == hf.value, 'an object restored from a pickle / deep copy equals a fresh one but hashes differently', how=how)
+        finally:
+            bb.hash = lambda x: x
     return h
 
 
@@ -228,6 +269,12 @@ def conditions(tier):
             conds.append(Cond(f'C13.pos-independent[{l},n={n}]', h_pos_independent(l, n), f'all {n}-bit contents x all pairs of stream positions', D_EQ + D_HASH, {'n': n}, timeout=T, setup=_install_hash_probe))
     for n in ([0, 1, 8, 9, 1999, 2000, 2001, 2500] if q else [0, 1, 7, 8, 9, 64, 1599, 1600, 1601, 1999, 2000, 2001, 2500, 3601]):
         conds.append(Cond(f'C13.hash[n={n}]', h_hash(n), f'all pairs of {n}-bit contents, all stream positions', D_HASH, {'n': n}, timeout=300, setup=_install_hash_probe))
+        if n in (9, 2000, 2001, 2500, 3601):
+            conds.append(Cond(f'C13.hash[n={n},lsb0-switch]', h_hash(n, True), f'all pairs of {n}-bit contents, all stream positions; options.lsb0 switched between the two hash calls', D_HASH, {'n': n}, timeout=300,
+                              setup=_install_hash_probe))
+    for l in ('Bits', 'ConstBitStream'):
+        for n in ([24, 2700] if q else [0, 12, 24, 2000, 2001, 2700]):
+            conds.append(Cond(f'C13.hash-pickle[{l},n={n}]', h_hash_pickle(l, n), f'a concrete {n}-bit pattern; pickle / deepcopy, hashed before or not; hash seed changed in between', D_HASH, {'n': n}, timeout=T))
     def _setup_files_and_probe():
         from kit import files as F
         F.install_fakes()
